@@ -78,9 +78,9 @@ mutual
     | ks, [], sw, i, done, st => by simp [compileCases]
     | ks, [e], sw, i, done, st => by simpa [compileCases] using compile_mono env e done false false st
     | ks, e :: e' :: es, sw, i, done, st => by
-      have h1 := compile_mono env e done (!env.dry) (!env.dry && decide ((ks.headD []).card > 1)) st
+      have h1 := compile_mono env e done true (decide ((ks.headD []).card > 1)) st
       have h2 := compileCases_mono env ks.tail (e' :: es) sw (i + 1) done
-        (compile env e done (!env.dry) (!env.dry && decide ((ks.headD []).card > 1)) st).st
+        (compile env e done true (decide ((ks.headD []).card > 1)) st).st
       simp only [compileCases]; omega
 end
 
